@@ -821,6 +821,13 @@ func (r *run) exec(i int, o op) {
 			r.trace = append(r.trace, step+" -> skipped, last shard")
 			return
 		}
+		if r.noMeta(o.Shard) {
+			// Evacuate of a shard without metabase lists nothing and returns (0, nil)
+			// (TODO #1731 in evacuate.go): nobody may detach such a shard
+			r.labels["detach-skipped-shard-degraded"] = true
+			r.trace = append(r.trace, step+" -> skipped, shard has no metabase")
+			return
+		}
 		m := r.e.Mode(o.Shard)
 		if !m.ReadOnly() {
 			_ = r.e.SetMode(o.Shard, m|mode.ReadOnly)
